@@ -181,6 +181,61 @@ def oracle_distribute(ctx, rng, n):
                 CLAMP_REQ.append(("clamp %d | %s" % (bits(float(m[members[0]]) * (1 - 1e-12)), " ".join(str(bits(v)) for v in lims_g)),
                                   float(m[members[0]]), dict(group=g, limits=lims_g, types=typ_of[members].tolist())))
         ctx.count("distribute_ok")
+        # iteration history: the sweep results of this distribution for 1-3 time steps (power shapes differ between time steps),
+        # summarised as Orificing._do_iter does, feed the next distribution.  Its flows must sum to the total that brings the
+        # mixed-mean outlet temperature of the previous sweep (ALL time steps) to the target: M1 (T_prev - T_in) / (T_target - T_in)
+        if not lim:
+            history_oracle(ctx, rng, o, m, power, labels, ng)
+
+
+def history_oracle(ctx, rng, o, m1, power, labels, ng):
+    n_asm = len(power)
+    n_ts = rng.choice([1, 2, 2, 3])
+    cp = 1270.0
+    rows = []
+    for ts in range(n_ts):
+        scale = rng.uniform(0.8, 1.25)
+        tilt = np.array([rng.uniform(0.9, 1.1) for _ in range(n_asm)])
+        for a in range(n_asm):
+            p = power[a] * scale * tilt[a]
+            t_out = o.t_in + p / m1[a] / cp
+            rows.append([float(ts + 1), a, p, m1[a], t_out, o.t_in + 1.3 * (t_out - o.t_in)])
+    res = np.array(rows)
+    o.group_data = np.column_stack([np.arange(n_asm), power, labels])
+    o._opt_col = 5
+    try:
+        summary = o._summarize_group_data(res)
+        m2, _ = o.distribute(res, summary[-1, 0])
+    except SystemExit:
+        ctx.count("history_error_exit")
+        o._opt_col = 4
+        return
+    o._opt_col = 4
+    ctx.evals += 1
+    ctx.count("history_%d_timesteps" % n_ts)
+    t_prev = float(np.sum(res[:, 3] * res[:, 4]) / np.sum(res[:, 3]))          # mixed mean over all time steps
+    want = float(np.sum(m1)) * (t_prev - o.t_in) / (700.0 - o.t_in)
+    if abs(float(np.sum(m2)) - want) > 1e-6 * want:
+        ctx.violation("c20-history-mass", "second distribution of an iteration history with %d time steps: flows sum to %.9g kg/s, the "
+                      "bulk outlet temperature target needs %.9g kg/s (previous sweep: %.9g kg/s, mixed-mean outlet %.6f K, summary "
+                      "reports %.6f K)" % (n_ts, np.sum(m2), want, np.sum(m1), t_prev, summary[-1, 0]),
+                      res=res.tolist(), labels=labels.tolist(), m1=m1.tolist(), m2=m2.tolist())
+        return
+    for g in range(ng):
+        mg = m2[labels == g]
+        if np.ptp(mg) > 1e-12 * max(1.0, abs(mg[0])):
+            ctx.violation("c20-equal-flow", "iteration 2: members of group %d receive different flow rates" % g)
+            return
+    # the summary rows: group maxima are maxima over members and time steps; the core row's maxima over everything
+    for g in range(ng):
+        sel = np.isin(res[:, 1], np.where(labels == g)[0])
+        if abs(summary[g, 1] - res[sel, 4].max()) > 1e-9 or abs(summary[g, 3] - res[sel, 5].max()) > 1e-9:
+            ctx.violation("c20-history-summary", "group %d: summarised peak temperatures are not the maxima over its members and all "
+                          "time steps" % g, res=res.tolist(), labels=labels.tolist())
+            return
+    if abs(summary[-1, 1] - res[:, 4].max()) > 1e-9 or abs(summary[-1, 3] - res[:, 5].max()) > 1e-9:
+        ctx.violation("c20-history-summary", "core row: summarised peak temperatures are not the maxima over all assemblies and time steps",
+                      res=res.tolist())
 
 
 def run(ctx):
